@@ -8,6 +8,7 @@ import NLV.Driver.Lifecycle
 import NLV.Driver.RunProc
 import NLV.Driver.Trace
 import NLV.Driver.Relay
+import NLV.Driver.Traceback
 
 def main (args : List String) : IO UInt32 := do
   match args with
@@ -21,4 +22,5 @@ def main (args : List String) : IO UInt32 := do
   | ["runproc"] => NLV.Driver.RunProc.main; return 0
   | ["trace"] => NLV.Driver.Trace.main; return 0
   | ["relay"] => NLV.Driver.Relay.main; return 0
+  | ["tb"] => NLV.Driver.Tb.main; return 0
   | _ => IO.eprintln "usage: nlvmodel <model>"; return 2
